@@ -60,6 +60,9 @@ func (c *invChecker) inspect(s *engine.Sim) {
 			c.add("C03", "extra-goroutines", fmt.Sprintf("exec %d: %d non-worker scheduler goroutines alive", tag, o))
 		}
 	}
+	if n := s.ForeignLive(); n > 0 {
+		c.add("C03", "foreign-goroutines", fmt.Sprintf("%d goroutines that neither the harness nor the scheduler's worker/loop/spawner sites started are alive inside user-visible callbacks (step %d)", n, s.Steps))
+	}
 	if s.MaxUnregistered > 1 {
 		c.add("C03", "unaccounted-goroutines", fmt.Sprintf("%d goroutines alive in the bubble besides workers, loop, spawner and harness goroutines (step %d)", s.MaxUnregistered, s.Steps))
 	}
@@ -1108,9 +1111,23 @@ func (c *checker) checkPar(x *execRun) {
 		ctxEntries, goexitEntries := 0, 0
 		for _, e := range entries {
 			hit := false
-			for i, w := range wantErrs {
-				if errors.Is(e, w) {
-					usedE[i]++
+			{
+				// one-to-one: several functions may have returned the very same value
+				first := -1
+				for i, w := range wantErrs {
+					if !errors.Is(e, w) {
+						continue
+					}
+					if first < 0 {
+						first = i
+					}
+					if usedE[i] == 0 {
+						first = i
+						break
+					}
+				}
+				if first >= 0 {
+					usedE[first]++
 					hit = true
 				}
 			}
